@@ -461,3 +461,15 @@ pub fn load_replay(path: &str) -> Value {
     v.get("witness").cloned().unwrap_or(v)
 }
 pub use libc;
+
+/// A fresh temporary directory for fixtures: on tmpfs when available (git object/ref writes are
+/// the dominant cost of the storage-backed workloads), removed on drop.
+pub fn scratch_dir() -> tempfile::TempDir {
+    let base = std::env::var("VERIF_TMP").ok().or_else(|| {
+        if std::path::Path::new("/dev/shm").is_dir() { Some("/dev/shm".to_string()) } else { None }
+    });
+    match base {
+        Some(b) => tempfile::Builder::new().prefix("verif-fx-").tempdir_in(b).or_else(|_| tempfile::tempdir()).expect("tempdir"),
+        None => tempfile::tempdir().expect("tempdir"),
+    }
+}
